@@ -34,8 +34,10 @@ CHECKS = {
               "listener, search listener, both sockets of the combined listener with the C03 tracker, the server's search "
               "responder with its MX clamp and randrange range): for every byte string, sender, clock reading, tracker state and "
               "oracle answer datagram_received returns normally; a datagram that is not a well-formed SSDP message is dropped "
-              "and leaves the tracker unchanged; everything build_ssdp_packet emits is dispatched; the tracker invariant "
-              "survives any datagram; the two executable clauses hold of every run. The model is run against the real "
+              "and leaves the tracker unchanged; a decodable message handed to the combined listener that the tracker "
+              "specification (C03.Spec) classifies as neither a valid sighting nor a valid byebye triggers no callback and "
+              "leaves the known devices unchanged (C02_listener_inert); everything build_ssdp_packet emits is dispatched; the "
+              "tracker invariant survives any datagram; the three executable clauses hold of every run. The model is run against the real "
               "datagram_received of long-lived endpoint instances on byte-, token- and header-level mutations of valid messages, "
               "plus an implementation-only volume search for escaping exceptions."),
         technique="Coq proof (exception-flow case analysis over the composed C01/C03 models, generated except clause and constants) + differential correspondence + implementation-only search for clause 1",
